@@ -22,7 +22,9 @@ RULE = ("texts: per country a valid IBAN (two fillers) and one invalid text per 
         "all-lower, each single letter lowered, alternating, and all 2^n case patterns for texts with "
         "<= 11 letters. Oracle: same accept/reject as the canonical text; accepted variants are == and "
         "hash-equal to the canonical object; compact has no white-space / lower case; formatted equals "
-        "the reference grouping; parsing compact and formatted gives an equal object. distinct = "
+        "the reference grouping; parsing compact and formatted gives an equal object. Components "
+        "passed to IBAN.generate / BBAN.from_components in five spacing / case styles (all at once and "
+        "one at a time) give the outcome of the compact upper-case spelling. distinct = "
         "distinct variant texts.")
 
 
@@ -164,6 +166,35 @@ def bban_problems(country: str, body: str):
     return probs
 
 
+def component_problems(country: str, body: str):
+    """Components handed to IBAN.generate / BBAN.from_components are texts too: however they are
+    spaced or cased, the outcome is that of the compact upper-case spelling."""
+    c = reg.countries()[country]
+    comps = {n: c.component(body, n) for n in ("bank_code", "branch_code", "account_code") if c.span(n)}
+    if "bank_code" not in comps or "account_code" not in comps:
+        return []
+
+    def spell(kw):
+        a = lib.outcome(lambda: str(lib.IBAN.generate(country, **kw)))
+        b = lib.outcome(lambda: str(lib.BBAN.from_components(country, **kw)))
+        return a, b
+
+    want = spell(comps)
+    probs = []
+    styles = [str.lower, lambda t: " ".join(t), lambda t: t[:1] + "\t" + t[1:].lower(),
+              lambda t: "\u00a0" + t.lower() + "\n", lambda t: t.swapcase()]
+    for si, st in enumerate(styles):
+        for which in [tuple(comps)] + [(n,) for n in comps]:
+            kw = {n: (st(v) if n in which else v) for n, v in comps.items()}
+            if kw == comps:
+                continue
+            got = spell(kw)
+            if got != want:
+                probs.append((f"components:{'generate' if got[0] != want[0] else 'from_components'}-outcome-"
+                              f"depends-on-spelling", want, (kw, got)))
+    return probs
+
+
 def shard(args):
     kind, key, tier = args
     part = par.Part()
@@ -171,6 +202,11 @@ def shard(args):
         cobj = reg.countries()[key]
         for f in ("distinct", "letters"):
             body = bases.bban(cobj, f)
+            if cobj.positions:
+                part["evals"] += 30
+                part.seen.add(hash(("components", key, body)))
+                for sig, exp, obs in component_problems(key, body):
+                    part.violation(sig, {"kind": "c10comp", "country": key, "bban": body}, exp, obs)
             part["evals"] += 7
             part.seen.add(hash(("bban", key, body)))
             for sig, exp, obs in bban_problems(key, body):
@@ -196,6 +232,9 @@ def shard(args):
 
 
 def replay(case: dict) -> dict:
+    if case.get("kind") == "c10comp":
+        probs = component_problems(case["country"], case["bban"])
+        return {"ok": not probs, "observed": [(p[0], p[2]) for p in probs]}
     if case.get("kind") == "c10bban":
         probs = bban_problems(case["country"], case["bban"])
         return {"ok": not probs, "observed": [(p[0], p[2]) for p in probs]}
